@@ -54,13 +54,18 @@ def run_config(v, ctx, tftpd, tier, combo, rng):
     write(os.path.join(sb["outside"], "canary.txt"), b"outside canary")
     targets = ["missing1.bin", "missing2.bin", "exist_short.bin", "exist_long.bin", "sub/in_sub.bin", "sub/missing_in_sub.bin", "only_rcv.bin", "exist_empty.bin", "sub/empty_in_sub.bin", "name with space.bin", "\u00fcn\u00ef c\u00f6d\u00e9 \u6587.bin", "L" * 180 + ".bin", "new name with space.bin", "n\u00e9w \u6587.bin"]
     reqs = [(kind, t, o) for kind in ("RRQ", "WRQ") for t in targets for o in OPTSETS]
+    # missing files whose lookup fails with something other than "no such entry": a component longer than NAME_MAX, a path
+    # through a regular file, through a missing directory (read requests only: they name no file, so ERROR 1)
+    odd_missing = ["M" * 300 + ".bin", "exist_short.bin/child.bin", "sub/" + "N" * 260, "sub/in_sub.bin/x/y.bin", "nodir/missing.bin"]
+    reqs += [("RRQ", t, o) for t in odd_missing for o in ("none", "all")]
+    must_keep = [("RRQ", t, "none") for t in odd_missing[:3]]
     # requests that must be refused whatever their options say: also with an out-of-range option value
     bad = [(kind, t, o) for kind in ("RRQ", "WRQ") for t in targets for o in BAD_OPTSETS]
     rng.shuffle(bad)
     reqs += bad[:20]
     rng.shuffle(reqs)
     if tier != "thorough":
-        reqs = reqs[:90]
+        reqs = reqs[:90] + [r for r in must_keep if r not in reqs[:90]]
     srv = N.Server(tftpd, sb["srv"], single=single, read_only=ro, overwrite=ow, keep=keep,
                    send_dir=sb["srv"] if dist else None, recv_dir=sb["rcv"] if dist else None, logdir=sb["logs"], shuffle=rng)
     pool = [N._sock(timeout=2.0) for _ in range(3)]
